@@ -305,7 +305,13 @@ LEVEL_TEXT = ('proof about the Lean transcription of the layout code: validate_l
               'elsewhere; opus_multistream_packet_validate accepts exactly n-1 self-delimited packets + one standard packet of '
               'equal duration (on top of the C06 parser theorems) and reads only the packet; for the five built-in ambisonics '
               'orders the integer product of the regenerated demixing and mixing tables, scaled by the exact real 10^(g/5120), is '
-              'within 3e-4 of 2^30 times the identity (with and without the non-diegetic pair); the int16 matrix output saturates')
+              'within 3e-4 of 2^30 times the identity (with and without the non-diegetic pair); the int16 matrix output saturates; '
+              'the stream loop of opus_multistream_encode_native, for every per-stream encoder behaviour within the C02/C07 contract, '
+              'emits n-1 self-delimited packets + one standard packet of the common duration that fit max_data_bytes and that '
+              'opus_multistream_packet_validate accepts (on top of C07 cat_first / outRangeImpl theorems), and the unchecked '
+              'repacketizer return value is never negative; opus_projection_decoder_init/create accept exactly the documented '
+              'arguments (never abort) and the matrix imported from the exported bytes is the restricted demixing matrix; isqrt32 is '
+              'the integer square root on 1..2^32-1')
 LEVEL_NOTE = ('trusted: Lean kernel; extractors for vorbis_mappings and the ten int16 matrices (re-run on every check, cross-checked '
               'by the correspondence suites); the correspondence harness. Equality with stand-alone decoders and the encoder packet '
               'structure rest on the S4 search (implementation only).')
